@@ -323,11 +323,20 @@ def run_xy(case):
         orc.begin_episode(fold)
         obs = env.reset() if case["folds"] is None else env.reset(fold)
         orc.check(obs)
+        kept = [(str(env.now()), obs, np.array(obs, copy=True))]      # what a caller who keeps observations holds
         done = False
         while not done and not res.violations:
             obs, reward, done, info = env.step(orc.action(k))
             k += 1
             orc.check(obs)
+            kept.append((str(env.now()), obs, np.array(obs, copy=True)))
+        if res.violations:
+            break
+        for when, ob, then in kept:
+            if ob.tobytes() != then.tobytes():
+                res.fail("the observation returned at %s was the last rows of env.X then, but the same object shows other rows after later steps "
+                         "(returned observations share memory): %s -> %s" % (when, then.ravel()[:4], ob.ravel()[:4]))
+                break
         if res.violations:
             break
     if orc.after_gap:
